@@ -231,3 +231,49 @@ def run(ctx):
         elif r["impl"] != m:
             rep["broken_correspondence"] = "GpLoop.v loop vs optimize(); C10_* theorems no longer apply"
             ctx.violation("gploop/model-mismatch", rep, no_input=True, what="trace differs from the Gallina loop")
+
+
+# ---- real solver failures through the QP back-ends ------------------------------------------------------------
+def real_qp_failures(ctx):
+    """a priority that a real QP solver (qpoases / osqp through casadi.qpsol) cannot solve: optimize() returns
+    False - it does not raise -, and what is exposed afterwards is the last completed priority"""
+    import casadi as ca
+    import numpy as np
+    from .. import gp
+    from . import c17
+    for variant in ("multi", "multi_keep_soft", "single_append"):
+        for plug, opts in (("qpoases", {"printLevel": "none"}), ("osqp", {"osqp": {"verbose": False}})):
+            c = {"k": "run", "times": [0, 1, 2], "E": 1, "p": [0], "variant": variant, "options": {},
+                 "goals": [{"path": True, "fn": "y", "prio": 1, "order": 1, "weight": 1, "nominal": 1, "tmin": 1.0},
+                           {"path": True, "fn": "z", "prio": 2, "critical": True, "tmin": 25.0}]}
+
+            def work():
+                p, snaps, _ = gp.build(c, qp=(plug, ca.qpsol, opts))
+                try:
+                    r = p.optimize()
+                except Exception as e:  # noqa: BLE001
+                    return {"raised": "%s: %s" % (type(e).__name__, str(e)[:160])}
+                out = {"returned": bool(r), "completed": len(snaps)}
+                if snaps:
+                    out["same"] = bool(np.allclose(p.extract_results(0)["y"], snaps[-1]["results"][0]["y"], atol=1e-9))
+                return out
+            k, val = c17.in_child(work, timeout=120)
+            ctx.count("real_qp_failure_runs")
+            ctx.case_done(core.fingerprint(["real-qp-failure", variant, plug]), True)
+            if k != "ok":
+                ctx.count("real_qp_failure_child_" + k)
+                continue
+            want_completed = 1 if variant.startswith("multi") else 0      # (single pass: all hard constraints are there from the start)
+            if "raised" in val or val["returned"] or val["completed"] != want_completed or val.get("same") is False:
+                ctx.violation("gploop/real-failure", {"case": c, "plugin": plug, "outcome": val},
+                              what="%s with %s on an unsolvable priority: %s (expected: returns False after %d completed priorities, results of the last completed one)" % (
+                                  variant, plug, val, want_completed))
+
+
+_run_core = run
+
+
+def run(ctx):  # noqa: F811
+    _run_core(ctx)
+    if not os.environ.get("VERIF_REPLAY"):
+        real_qp_failures(ctx)
